@@ -100,7 +100,8 @@ NS_OP = [4, 6, 8]
 MAGS_RT = [0.5, 2.0, 1.3, 0.8]
 ZS_OP = [100.0, -100.0, 2500.0, -2500.0, 1.0e4]
 MAGS_OP = [1.0, 0.5, 0.8, 1.3, 2.0]
-SPLITS = [(1, 0.37), (-2, 1.0 / 3.0), (3, 0.9)]
+SPLITS = [(1, 0.37), (-2, 1.0 / 3.0), (3, 0.9), (1, 1e-6), (2, 5e-6), (-1, 1e-4), (3, 1.0 - 2e-5)]
+MANY_LEGS = [(1, 64), (-1, 1024), (2, 4096)]      # total (in z0) walked in that many equal legs
 
 # beam lattice (lengths in input samples, distances in Rayleigh ranges)
 BEAM_D1 = [0.01, 0.004]
@@ -125,10 +126,10 @@ def NS_AIRY(tier):
 
 def BOUNDS(tier):
     return {"group": {"N": NS_OP + [5, 7], "wavelengths": WVLS, "spacings": D1S, "z0": Z0S, "step_alphabet_z0": STEPS,
-                      "depth": DEPTH(tier), "non_lattice_splits(total_z0, fraction)": SPLITS},
+                      "depth": DEPTH(tier), "non_lattice_splits(total_z0, fraction)": SPLITS, "many_equal_legs(total_z0, legs)": MANY_LEGS},
             "magnified_round_trip": {"N": NS_OP, "magnifications": MAGS_RT, "z": ZS_OP[:4]},
             "operator_identities": {"N": NS_OP, "z": ZS_OP, "magnifications": MAGS_OP},
-            "beams": {"N": NS_BEAM(tier), "wavelengths": WVLS, "spacings": BEAM_D1, "waist_px": W0PX,
+            "beams": {"N": NS_BEAM(tier), "N_reduced_lattice": [600, 1024] if tier == "quick" else [600, 1024, 1030, 2050], "wavelengths": WVLS, "spacings": BEAM_D1, "waist_px": W0PX,
                       "centres_px": CENTRES, "input_plane_zR": ZA_F, "distance_zR": Z_F,
                       "magnifications": MAGS_BEAM, "margin_beam_radii": MARGIN},
             "airy": {"N": NS_AIRY(tier), "aperture_radius_px": ["N/16", "N/12"], "focal": [2.5, -2.5]}}
@@ -149,6 +150,12 @@ def cases(tier):
     for N, wvl, d, w0, c, za in itertools.product(NS_BEAM(tier), WVLS, BEAM_D1, W0PX, sorted(CENTRES), ZA_F):
         yield Case("beam:N=%d:lam=%g:d1=%g:w0=%gpx:c=%s:za=%gzR" % (N, wvl, d, w0, c, za),
                    {"kind": "beam", "N": N, "wvl": wvl, "d1": d, "w0px": w0, "c": c, "za_f": za})
+    # grids above 512 / 1024 / 2048 rows (reduced distance / magnification lattice)
+    for N in ((600, 1024) if tier == "quick" else (600, 1024, 1030, 2050)):
+        for c, w0 in (("A", 7.0), ("B", 5.5)):
+            yield Case("beam:N=%d:lam=%g:d1=%g:w0=%gpx:c=%s:za=%gzR:reduced" % (N, 0.5e-6, 0.01, w0, c, -0.6),
+                       {"kind": "beam", "N": N, "wvl": 0.5e-6, "d1": 0.01, "w0px": w0, "c": c, "za_f": -0.6,
+                        "z_f": [1.0, -2.5], "mags": [1.0, 1.3]})
     for N in NS_AIRY(tier):
         for wvl, f, div in ((0.5e-6, 2.5, 16), (1.5e-6, -2.5, 12)):
             yield Case("airy:N=%d:lam=%g:f=%g:a=N/%d" % (N, wvl, f, div),
@@ -299,6 +306,18 @@ def _group(p):
         a, b = t * Z, Z - t * Z
         o.close("split_any_fraction", _maxabs(extract(b) @ extract(a) - extract(Z)), TOL,
                 sub="z=%+dz0:t=%.4g" % (tot, t))
+    # ---- the same distance walked in very many short legs (the operator of k equal real steps is the k-th power
+    #      of the extracted one-leg operator)
+    for tot, legs in MANY_LEGS:
+        Z = tot * z0
+        o.close("split_into_many_short_legs", _maxabs(numpy.linalg.matrix_power(extract(Z / legs), legs) - extract(Z)),
+                1e-9, sub="z=%+dz0:legs=%d" % (tot, legs))
+    # ---- a caller-owned field handed to two calls in a row (the second call must see what the caller holds)
+    from mc import variants
+    for mag in (1.0, 1.3):
+        k = variants.check_reuse(o, "input_field", lambda U: op.angularSpectrum(U, wvl, d, mag * d, 1.7 * z0), u0.astype(complex),
+                                 TOL, sub="mag=%g" % mag, mutate=lambda a: a.__imul__(0.5 - 0.25j))
+        o.stat("lib_calls", k)
     return o
 
 
@@ -445,11 +464,11 @@ def _beam(p):
             o.close("gouy_phase", dphi, TOL_GOUY, sub=sub)
             o.close("beam_centroid", max(abs(cx - x0), abs(cy - y0)) / w0, 1e-8, sub=sub)
 
-    for zf in Z_F:
+    for zf in p.get("z_f", Z_F):
         z = zf * zR
         w_out = fr.beam_radius(wvl, w0, za + z)
         outs = {}
-        for m in MAGS_BEAM:
+        for m in p.get("mags", MAGS_BEAM):
             d2 = m * d1
             g_out = _margin(N, d2, c, w_out)
             Dz1 = z / 2.0 if m == 1.0 else z / (1.0 - m)
